@@ -189,14 +189,33 @@ pub fn run(cx: &mut Cx) {
     let grid = pool.len() as u64;
     // case k < grid: pool[k] against the whole pool (the exhaustive boundary grid, both tiers)
     // case k >= grid: a batch of random pairs near boundaries, context and literal spellings
-    let total = grid + cx.total(200, 6000);
+    // case k == grid: the power grid (small and power-of-two bases against every exponent 0..=130: the last exponent
+    // whose result still fits differs per base, e.g. (-2) ** 127 fits and 2 ** 127 does not)
+    let total = grid + 1 + cx.total(200, 6000);
     cx.counters.insert("const:grid_pool_values".into(), grid);
     for case in cx.my_cases(total) {
         let grid_case = case < grid;
-        cx.begin_case(case, if grid_case { "grid" } else { "random" });
+        let pow_case = case == grid;
+        cx.begin_case(case, if grid_case { "grid" } else if pow_case { "pow-grid" } else { "random" });
         let mut rng = cx.rng(case);
         let pairs: Vec<(Num, Num)> = if grid_case {
             pool.iter().map(|b| (pool[case as usize].clone(), b.clone())).collect()
+        } else if pow_case {
+            let mut bases: Vec<i128> = (-12..=12).collect();
+            for k in [4u32, 5, 8, 15, 16, 21, 31, 32, 42, 63, 64] {
+                bases.extend([1i128 << k, -(1i128 << k), (1i128 << k) - 1, -((1i128 << k) + 1)]);
+            }
+            let mut v = Vec::new();
+            for (i, b) in bases.iter().enumerate() {
+                for e in 0u128..=130 {
+                    let (mut rb, mut re) = (Vec::new(), Vec::new());
+                    reprs_of(*b < 0, b.unsigned_abs(), &mut rb);
+                    reprs_of(false, e, &mut re);
+                    v.push((rb[(i + e as usize) % rb.len()].clone(), re[(i / 2 + e as usize) % re.len()].clone()));
+                }
+            }
+            cx.counters.insert("const:pow_grid_pairs".into(), v.len() as u64);
+            v
         } else {
             (0..600).map(|_| (random_num(&mut rng, &pool), random_num(&mut rng, &pool))).collect()
         };
